@@ -86,3 +86,72 @@ Example C17_complete_nonvacuous :
      (NT 0, Some (0, 1)); (NT 0, Some (1, 2)); (NT 0, Some (2, 3)); (NT 0, Some (0, 2)); (NT 0, Some (1, 3))]
     [(0, 0, 1); (0, 1, 2); (0, 2, 3)] 1 0 3 false F_pre = true.
 Proof. vm_compute. reflexivity. Qed.
+(* ---- the GLR driver model (Model/GLR.v) with consume_input off ---------------------------------- *)
+From PV Require Import Model.Scan Model.Parser Model.GLR Model.ForestGraph Spec.GLRSpec
+  Proofs.GLRProofs Proofs.GLRWitness.
+
+(* soundness for consume_input = false (instance of C01_glr_model_sound): every tree of the
+   forest the model returns is a derivation tree rooted in the start symbol *)
+Theorem C17_glr_model_sound :
+  forall (c : pconf) (inp : pinput) (fuel : nat) (pos start : N) (nodes : forest) (root : nat),
+    pc_consume c = false ->
+    table_struct (pc_g c) (pc_tb c) start = true ->
+    glr_parse_full c inp fuel pos = GLRForest nodes root ->
+    forall t, unfolds (glr_forest nodes root) (pred (length (glr_forest nodes root))) t ->
+              wf_tree (pc_g c) t /\ root_sym (pc_g c) t = Some (NT start).
+Proof. intros c inp fuel pos start nodes root _. exact (glr_full_sound c inp fuel pos start nodes root). Qed.
+Print Assumptions C17_glr_model_sound.
+
+(* consume_input off, under the boolean conditions evaluated by the harness (glr_tok_checks0:
+   ws layout, STOP never matched or shifted, ACCEPT only under STOP, no two terminals matching
+   with different lengths at one position of this input): every tree of the model's forest is a
+   derivation from the start symbol whose leaves begin right after the leading layout, are
+   matched by their recognizers and are separated by layout only: a derivation of a PREFIX of
+   the input.  (The merge of all accepted heads' links into the last one in Forest.__init__ can
+   make that link its own child in cyclic grammars; the proof shows that the alternatives of
+   shorter prefixes that enter this way still yield prefix derivations.) *)
+From PV Require Import Proofs.GLRTokProofs Proofs.GLRTokFull.
+Theorem C17_glr_model_prefix_valid :
+  forall (c : pconf) (inp : pinput) (fuel : nat) (pos start : N) (nodes : forest) (root : nat),
+    table_struct (pc_g c) (pc_tb c) start = true ->
+    glr_tok_checks0 c inp = true ->
+    glr_parse_full c inp fuel pos = GLRForest nodes root ->
+    forall t, unfolds (glr_forest nodes root) (pred (length (glr_forest nodes root))) t ->
+      wf_tree (pc_g c) t /\ root_sym (pc_g c) t = Some (NT start) /\
+      chain_ok (skip_ws (pc_ws c) inp) (leaves t) /\ All (leaf_ok (tokok_of inp)) (leaves t) /\
+      match bounds (leaves t) with
+      | None => pc_consume c = true -> skip_ws (pc_ws c) inp pos = in_len inp
+      | Some (fs, le) =>
+          fs = skip_ws (pc_ws c) inp pos /\
+          (pc_consume c = true -> le <= in_len inp /\ skip_ws (pc_ws c) inp le = in_len inp)
+      end.
+Proof. exact glr_full_tok_sound_any. Qed.
+Print Assumptions C17_glr_model_prefix_valid.
+
+(* "all derivations of all sentence prefixes" is FALSE of the faithful model: S: A A A | EMPTY;
+   A: S 'b' | EMPTY;  consume_input=False, input "b": a certified derivation of a prefix is
+   missing from the forest (KF-C17-lost-derivations) *)
+Theorem C17_glr_model_lost_refuted :
+  exists (c : pconf) (inp : pinput) (fuel : nat) (start : N) (nodes : forest) (root : nat) (t : tree),
+    pc_consume c = false /\
+    table_struct (pc_g c) (pc_tb c) start = true /\
+    glr_parse_full c inp fuel 0 = GLRForest nodes root /\
+    valid_parse c inp start 0 t = true /\
+    wf_tree (pc_g c) t /\ root_sym (pc_g c) t = Some (NT start) /\
+    forall t', unfolds (glr_forest nodes root) (pred (length (glr_forest nodes root))) t' ->
+               shape t' <> shape t.
+Proof. exact glr_model_prefix_lost. Qed.
+Print Assumptions C17_glr_model_lost_refuted.
+
+(* "each once" is FALSE of the faithful model: S: S S S | S S | 'a'; consume_input=False,
+   "aaaaa": a packed node reachable from the root holds one alternative twice
+   (KF-C17-duplicate-derivations) *)
+Theorem C17_glr_model_duplicate_refuted :
+  exists (c : pconf) (inp : pinput) (fuel : nat) (start : N) (nodes : forest) (root k : nat),
+    pc_consume c = false /\
+    table_struct (pc_g c) (pc_tb c) start = true /\
+    glr_parse_full c inp fuel 0 = GLRForest nodes root /\
+    reach nodes root k /\ nodup_alts (nth k nodes []) = false /\
+    forest_nodup (glr_forest nodes root) = false.
+Proof. exact glr_model_prefix_duplicates. Qed.
+Print Assumptions C17_glr_model_duplicate_refuted.
